@@ -346,6 +346,7 @@ func (e *env) spendingHistory(id int) (string, interface{}) {
 		return r.Intn(len(e.accts))
 	}
 	for step := 0; step < nops; step++ {
+		prevNow := now
 		switch r.Intn(7) {
 		case 0:
 		case 1:
@@ -359,6 +360,33 @@ func (e *env) spendingHistory(id int) (string, interface{}) {
 		default:
 			now += r.Range(1, 60)
 		}
+		// boundary times of the guided pool: just before / at / after ClaimStart, ClaimEnd, a
+		// beneficiary's last claim (+ expiry), the last rate recalculation (+ period)
+		if guided && step >= 2 && r.Chance(50) {
+			if cur := k.GetSpendingPool(h, poolNames[0]); cur != nil {
+				var base []int64
+				base = append(base, int64(cur.ClaimStart), int64(cur.ClaimEnd), int64(cur.LastDynamicRateCalcTime), int64(cur.LastDynamicRateCalcTime+cur.DynamicRatePeriod))
+				for _, ci := range k.GetPoolClaimInfos(h, poolNames[0]) {
+					base = append(base, int64(ci.LastClaim), int64(ci.LastClaim+cur.ClaimExpiry))
+				}
+				var cands []int64
+				for _, b := range base {
+					for _, dlt := range []int64{-1, 0, 1, 30} {
+						if t := b + dlt; t > prevNow && t <= prevNow+7000 {
+							cands = append(cands, t)
+						}
+					}
+				}
+				if len(cands) > 0 {
+					sort.Slice(cands, func(i, j int) bool { return cands[i] < cands[j] })
+					if r.Chance(50) {
+						now = cands[0]
+					} else {
+						now = cands[r.Intn(len(cands))]
+					}
+				}
+			}
+		}
 		var opCoq string
 		j := map[string]interface{}{"t": now}
 		var f func(c sdk.Context) error
@@ -371,6 +399,8 @@ func (e *env) spendingHistory(id int) (string, interface{}) {
 		if guided && step < 5 {
 			gstep = step
 			choice = []int{0, 10, 30, 30, 30}[step]
+		} else if guided && r.Chance(35) {
+			choice = []int{50, 50, 50, 90, 30}[r.Intn(5)] // claim, claim, claim, end block, register
 		}
 		switch {
 		case choice < 6: // create
@@ -386,9 +416,13 @@ func (e *env) spendingHistory(id int) (string, interface{}) {
 			t := e.genTerms(now, false)
 			if gstep == 0 {
 				p = 0
-				t.Start = uint64([]int64{0, now - 10, now - 100}[r.Intn(3)])
-				t.End = uint64([]int64{0, 0, now + 5000, now + 800}[r.Intn(4)])
-				t.Expiry = []uint64{1000000000, 1000000000, 1000, 60}[r.Intn(4)]
+				// both pool kinds; the window opens in the past or in the future (so that beneficiaries
+				// register before it opens), closes never / soon / late; short and long expiry
+				t.Dyn = r.Chance(50)
+				t.DynP = []uint64{50, 100, 400, 1000}[r.Intn(4)]
+				t.Start = uint64([]int64{0, now - 10, now - 100, now + 60, now + 400, now + 1000}[r.Intn(6)])
+				t.End = uint64([]int64{0, 0, now + 5000, now + 800, int64(t.Start) + 300, int64(t.Start) + 30}[r.Intn(6)])
+				t.Expiry = []uint64{1000000000, 1000000000, 1000, 60, 30}[r.Intn(5)]
 				for i := range t.Rates {
 					t.Rates[i].Amount = sdk.MustNewDecFromStr([]string{"1", "0.5", "2.5", "10", "0.1", "385", "0.333333333333333333"}[r.Intn(7)])
 				}
